@@ -34,6 +34,11 @@ type Ctx struct {
 	Prop string
 	Tier string
 	Var  string // variant of the scenario (sub-world), chosen per run
+	// RunIndex / BaseSeed: index of this run and VERIF_SEED (generation mode). Enumerating
+	// checks derive their plan from them and record it on the tape (Tape.Preset/Reseed), so
+	// replays depend on the tape only.
+	RunIndex int
+	BaseSeed uint64
 
 	Violations []Violation
 	Faults     map[string]int64 // fault kinds that actually fired
@@ -79,6 +84,8 @@ type PropDef struct {
 	Post func(c *Ctx)
 	// IgnorePanics: task panics are not violations by themselves.
 	IgnorePanics bool
+	// ShrinkExecs / ShrinkSeconds bound the minimisation of one violation (0 = 300 executions / 90 s).
+	ShrinkExecs, ShrinkSeconds int
 	// OverrunSig: if set, exhausting the step budget (Config.MaxSteps) is a violation with
 	// this signature instead of a harness error. Only for properties whose statement forbids
 	// unbounded work on bounded input (C15); the step count is deterministic, so it replays.
@@ -109,6 +116,12 @@ type Outcome struct {
 
 var theT *testing.T
 
+// set by the worker / replay driver before execute
+var (
+	curRunIndex int
+	curBaseSeed uint64
+)
+
 // execute runs one scenario under one tape.
 func execute(p *PropDef, tape *simrt.Tape, tier, variant string) *Outcome {
 	raceLogTake() // drop anything reported outside a run
@@ -118,7 +131,7 @@ func execute(p *PropDef, tape *simrt.Tape, tier, variant string) *Outcome {
 		simrt.SetMapMode(i, simrt.MapSorted)
 	}
 	resetGlobals()
-	c := &Ctx{T: tape, Prop: p.ID, Tier: tier, Var: variant, Faults: map[string]int64{}, Probes: map[string]int64{},
+	c := &Ctx{T: tape, Prop: p.ID, Tier: tier, Var: variant, RunIndex: curRunIndex, BaseSeed: curBaseSeed, Faults: map[string]int64{}, Probes: map[string]int64{},
 		States: map[uint64]struct{}{}, Keep: map[string]interface{}{}}
 	cfg := simrt.Config{Policy: simrt.PolicyCoarse}
 	if p.SimConfig != nil {
@@ -477,6 +490,12 @@ func workerMain(t *testing.T) {
 	}
 	os.MkdirAll(replayDir, 0755)
 
+	knownSigs := map[string]bool{}
+	for _, k := range strings.Split(os.Getenv("VERIF_KNOWN_SIGS"), "\n") {
+		if k != "" {
+			knownSigs[k] = true
+		}
+	}
 	res := &WorkerResult{Property: propID, Tier: tier, Seed: seed, Worker: wi, Faults: map[string]int64{}, Probes: map[string]int64{}, Variants: map[string]int{},
 		Rule: p.Rule, Real: p.Real, Stub: p.Stub, Assumptions: p.Assumptions}
 	t0 := time.Now()
@@ -496,6 +515,7 @@ func workerMain(t *testing.T) {
 			}
 		}
 		runSeed := simrt.Mix(seed, propID, uint64(idx))
+		curRunIndex, curBaseSeed = idx, seed
 		variant := variantFor(p, idx)
 		what = fmt.Sprintf("prop=%s idx=%d seed=%d variant=%s", propID, idx, runSeed, variant)
 		stop := watchdog(300*time.Second, &what)
@@ -547,11 +567,20 @@ func workerMain(t *testing.T) {
 			if tier == "quick" {
 				maxEx, maxDur = 120, 20*time.Second
 			}
+			if p.ShrinkExecs > 0 {
+				maxEx = p.ShrinkExecs
+			}
+			if p.ShrinkSeconds > 0 {
+				maxDur = time.Duration(p.ShrinkSeconds) * time.Second
+			}
 			if rem := budget - time.Since(t0); rem < maxDur {
 				maxDur = rem
 				if maxDur < 3*time.Second {
 					maxDur = 3 * time.Second
 				}
+			}
+			if knownSigs[v.Sig] {
+				maxEx = 0 // a committed finding with its own minimised replay: do not minimise again
 			}
 			small, execs := shrink(p, tier, variant, runSeed, streams, v.Sig, maxEx, maxDur)
 			close(stop)
@@ -647,6 +676,7 @@ func replayMain(t *testing.T, path string) {
 		fmt.Fprintf(os.Stderr, "unknown property %q\n", rf.Property)
 		os.Exit(2)
 	}
+	curRunIndex, curBaseSeed = rf.RunIndex, rf.Seed
 	what := "replay " + path
 	stop := watchdog(600*time.Second, &what)
 	out := execute(p, simrt.ReplayTape(rf.RunSeed, rf.Streams), rf.Tier, rf.Variant)
